@@ -458,8 +458,11 @@ impl ServerModel {
                 if !ok {
                     return Err(("reject-refused", format!("reject_request({}) of a pending request returned Err", id)));
                 }
-                if !outs.iter().any(|o| matches!(o, SOut::Error { .. })) {
-                    return Err(("reject-without-error", "rejecting a pending request did not emit an _error response".to_string()));
+                // The statement does not prescribe the wire form of a rejection: `_error` (what the
+                // library sends) and an onStatus (what FMS-style servers send for publish/play) both
+                // tell the peer; only a rejection the peer never hears about is flagged.
+                if !outs.iter().any(|o| matches!(o, SOut::Error { .. } | SOut::OnStatus { .. })) {
+                    return Err(("reject-without-error", "rejecting a pending request emitted neither an _error response nor a status notification".to_string()));
                 }
                 let mut m = self.clone();
                 m.pending.remove(&id);
